@@ -2,7 +2,7 @@ from .core import BASE_TRUST, REPO
 
 META = {
     "category": "proof",
-    "text": "Lean 4 theorems over a model of the cursor state machine (all row lists, pointers, int64 offsets and operation histories): pointer invariant, exact positioning of FETCH, WHILE IN visits every row once in order, COUNT / IS OPEN / IS IN RANGE agree with the state, closed / reopened / undeclared cursors are errors, rows handed out between OPEN and CLOSE are those of the OPEN-time result. The arithmetic of (*Cursor).Fetch / IsInRange / Count is regenerated from lib/query/cursor.go on every run and proved equal to the model, and so is the fact that WhileInCursor looks the cursor up by name inside its loop (processor.go, query.go, reference_scope.go); the model has blocks (innermost-first lookup) and WHILE IN with a body, with theorems that a disposed / closed cursor ends the loop with the error and that every row handed to the body comes from the cursor the name denotes at that moment; the rest is tied by a differential run of the real processor (SQL text) against the compiled model, with direct law checks. Exact positioning (fetch_spec) is proved in full for every int64 offset; the int64 overflow of FETCH RELATIVE (finding F9, fixed in /repo 63b833c) stays under watch as harness law fetch_spec_relative_overflow",
+    "text": "Lean 4 theorems over a model of the cursor state machine (all row lists, pointers, int64 offsets and operation histories): pointer invariant, exact positioning of FETCH, WHILE IN visits every row once in order, COUNT / IS OPEN / IS IN RANGE agree with the state, closed / reopened / undeclared cursors are errors, rows handed out between OPEN and CLOSE are those of the OPEN-time result. The arithmetic of (*Cursor).Fetch / IsInRange / Count is regenerated from lib/query/cursor.go on every run and proved equal to the model, and so are Cursor.Open / Close / IsOpen / Pointer, CursorMap.Declare / AddPseudoCursor / Dispose and evalCursorStatus (Lean definitions proved equal to the model's open / close / status / declare / dispose for every state), the whole statement skeleton of WhileInCursor, the delegating CursorMap methods, the strings.ToUpper key helpers, the constructors and the block walks of ReferenceScope (effect lists compared with hand-reviewed Ref/CursorOps.lean), and the fact that WhileInCursor looks the cursor up by name inside its loop (processor.go, query.go, eval.go, reference_scope.go); the model has blocks (innermost-first lookup) and WHILE IN with a body, with theorems that a disposed / closed cursor ends the loop with the error and that every row handed to the body comes from the cursor the name denotes at that moment; the rest is tied by a differential run of the real processor (SQL text) against the compiled model, with direct law checks. Exact positioning (fetch_spec) is proved in full for every int64 offset; the int64 overflow of FETCH RELATIVE (finding F9, fixed in /repo 63b833c) stays under watch as harness law fetch_spec_relative_overflow",
     "design_ref": "DESIGN.md section 5, C16",
     "note": "trusted: Lean kernel (axioms propext, Classical.choice, Quot.sound only), the go/ast translator extract/cursorfetch (fails on any construct outside its subset), harness + driver; the view is a value in the model: that the implementation never aliases it with the table is what the differential run with interleaved DML checks; a Go slice has fewer than 2^63-1 records (hypothesis LenOK)",
     "technique": "Lean 4 machine-checked proof over a model whose integer arithmetic is regenerated from the Go source + differential correspondence with the Go implementation",
@@ -22,6 +22,8 @@ def run(run):
     q_dir = REPO / "lib" / "query"
     run.regen("cursorloop", ["go", "-C", "extract/cursorfetch", "run", ".", "loop", str(q_dir / "processor.go"), str(q_dir / "query.go"),
                              str(q_dir / "reference_scope.go")], "Csvq/Gen/CursorLoop.lean")
+    run.regen("cursorops", ["go", "-C", "extract/cursorfetch", "run", ".", "ops", str(q_dir / "cursor.go"), str(q_dir / "processor.go"),
+                            str(q_dir / "eval.go"), str(q_dir / "reference_scope.go")], "Csvq/Gen/CursorOps.lean")
     run.obligations_for(["Csvq.Props.C16"])
     run.stream("c16", 3000 if q else 300000)
     if not q:
@@ -30,7 +32,7 @@ def run(run):
     return run.finish(
         level="proof",
         rule="scripted histories (RELATIVE +-2^63 from inside / before the result, empty result with every position, DML between OPEN and WHILE IN, clamping then PRIOR/NEXT, every error case) followed by random histories of DECLARE/OPEN/FETCH/WHILE IN (with BREAK, with DML on the underlying table inside the body)/CLOSE/DISPOSE/COUNT/IS [NOT] OPEN/IS [NOT] IN RANGE and structured programs (the life-cycle statements CLOSE / DISPOSE / shadowing DECLARE / re-OPEN / DISPOSE of the shadowing cursor and FETCH / status statements INSIDE a WHILE IN body — directly, in an IF block guarded by the iteration number, or in a function called from the body —, the loop itself inside a block that declares a shadowing cursor, and the same statements in a nested block at top level; the harness simulates blocks innermost-first with the loop fetching by name on every iteration and compares traces: laws while_in_disposed_is_error, while_in_closed_is_error, while_in_follows_current_binding, block_scoping) on up to 3 cursors (case-variant names) over 6 query shapes on a temporary or CSV-file table of 0-50 rows, interleaved with INSERT/UPDATE/DELETE/COMMIT/ROLLBACK; offsets from {0, +-1, +-len, +-(len+-1), in range, just out of range, +-2^62, 2^63-1-len, +-(2^63-1), -2^63, maxint-pointer(+1), random 64 bit}; non-trivial = distinct (table kind, query, result-size class, pointer class, position, offset class, overflow, outcome, DML-since-OPEN) signature",
-        trusted_base=BASE_TRUST + ["extract/cursorfetch: go/parser + go/ast translation of (*Cursor).Fetch/IsInRange/Count to Lean (exits non-zero outside its subset)",
+        trusted_base=BASE_TRUST + ["extract/cursorfetch: go/parser + go/ast translation of (*Cursor).Fetch/IsInRange/Count/Open/Close/IsOpen/Pointer, CursorMap.Declare/AddPseudoCursor/Dispose and evalCursorStatus to Lean definitions, and of WhileInCursor / the delegating methods / the scope walks to effect lists (exits non-zero outside its subset; calls it does not review appear as tokens or parameters)", "Ref/CursorOps.lean: the hand-reviewed reading of the skeletons",
                                    "the harness' shadow evaluation of its six fixed query shapes (table order, ORDER BY id, id % 2 = 0, LIMIT k, column swap, single column)"],
         checker_cmd="cd /verif && go -C extract/cursorfetch run . /repo/lib/query/cursor.go > lean/Csvq/Gen/CursorFetch.lean && cd lean && lake build Csvq.Props.C16 && lake env lean <#print axioms for every theorem>",
     )
